@@ -15,18 +15,22 @@ def parentOr (x : BitVec 64) (l : Nat) : BitVec 64 :=
   | .ok p => p
   | .error _ => 0#64
 
-/-- all level-r descendants of q are in `cells` (cells duplicate-free, all of resolution r) -/
-def isFull (cells : List (BitVec 64)) (r : Nat) (q : BitVec 64) : Bool :=
+/-- `tbl[l]` = the resolution-l ancestors of the input cells, in input order -/
+def ancTable (cells : List (BitVec 64)) (r : Nat) : Array (Array (BitVec 64)) :=
+  (Array.range (r + 1)).map fun l => (cells.map (parentOr · l)).toArray
+
+/-- all level-r descendants of q (an ancestor at level l) are among the input cells (duplicate-free,
+all of resolution r): as many input cells have q as their level-l ancestor as q has descendants -/
+def isFull (tbl : Array (Array (BitVec 64))) (r l : Nat) (q : BitVec 64) : Bool :=
   match cellToChildrenSize q (r : Int) with
-  | .ok n => ((cells.filter (fun y => parentOr y (getRes q) == q)).length : Int) == n
+  | .ok n => (((tbl[l]!).filter (· == q)).size : Int) == n
   | .error _ => false
 
-/-- climb from `cur` (of resolution l) while the parent is full -/
-def climbFull (cells : List (BitVec 64)) (r : Nat) : Nat → BitVec 64 → BitVec 64
-  | 0, cur => cur
-  | l + 1, cur =>
-    let q := parentOr cur l
-    if isFull cells r q then climbFull cells r l q else cur
+/-- climb from the level-l ancestor of input cell number i while the parent is full -/
+def climbFull (tbl : Array (Array (BitVec 64))) (r i : Nat) : Nat → BitVec 64
+  | 0 => (tbl[0]!)[i]!
+  | l + 1 =>
+    if isFull tbl r l ((tbl[l]!)[i]!) then climbFull tbl r i l else (tbl[l + 1]!)[i]!
 
 def insertSorted (x : BitVec 64) : List (BitVec 64) → List (BitVec 64)
   | [] => [x]
@@ -38,6 +42,7 @@ def compactSpec (cells : List (BitVec 64)) : List (BitVec 64) :=
   | [] => []
   | c :: _ =>
     let r := getRes c
-    cells.foldl (fun acc x => insertSorted (climbFull cells r r x) acc) []
+    let tbl := ancTable cells r
+    (List.range cells.length).foldl (fun acc i => insertSorted (climbFull tbl r i r) acc) []
 
 end H3
